@@ -39,6 +39,7 @@ type scope struct {
 	// Track disposable scoped instances
 	disposables   []Disposable
 	disposablesMu sync.Mutex
+	drained       bool // Close has taken the disposables; guarded by disposablesMu
 
 	// Child scopes for hierarchical cleanup
 	children   map[*scope]struct{}
@@ -318,6 +319,7 @@ func (s *scope) dispose() error {
 	s.disposablesMu.Lock()
 	disposables := s.disposables
 	s.disposables = nil
+	s.drained = true
 	s.disposablesMu.Unlock()
 
 	for i := len(disposables) - 1; i >= 0; i-- {
@@ -401,6 +403,10 @@ func (s *scope) setInstance(descriptor *Descriptor, key instanceKey, instance an
 		s.instancesMu.Lock()
 		if s.instances == nil {
 			s.instancesMu.Unlock()
+			// Close has finished: nobody else will dispose this instance
+			if d, ok := instance.(Disposable); ok {
+				_ = d.Close()
+			}
 			return ErrScopeDisposed
 		}
 		s.instances[key] = instance
@@ -409,6 +415,13 @@ func (s *scope) setInstance(descriptor *Descriptor, key instanceKey, instance an
 	case Transient:
 		if d, ok := instance.(Disposable); ok {
 			s.disposablesMu.Lock()
+			if s.drained {
+				// Close has already disposed the tracked instances; an instance
+				// added now would never be closed, so dispose it here
+				s.disposablesMu.Unlock()
+				_ = d.Close()
+				return ErrScopeDisposed
+			}
 			s.disposables = append(s.disposables, d)
 			s.disposablesMu.Unlock()
 		}
